@@ -163,7 +163,11 @@ def run_point(case):
     if fn == 'DATE':
         y, m, d = case['y'], case['m'], case['d']
         exp = o_date(y, m, d)
-        outs = ev(['DATE', 'YEAR.DATE', 'MONTH.DATE', 'DAY.DATE'], A=y, B=m, C=d)
+        if (y + m + d) % 5 == 0:
+            # every fifth point hands the parts over as the floats a computation gives (4048/2 is 2024.0)
+            outs = ev(['DATE', 'YEAR.DATE', 'MONTH.DATE', 'DAY.DATE'], A=float(y), B=float(m), C=float(d))
+        else:
+            outs = ev(['DATE', 'YEAR.DATE', 'MONTH.DATE', 'DAY.DATE'], A=y, B=m, C=d)
         for k, e in (('DATE', exp), ('YEAR.DATE', exp.year), ('MONTH.DATE', exp.month), ('DAY.DATE', exp.day)):
             f = mismatch(case, e, outs[k], f'{k}:' + ('d<=-2' if d <= -2 else 'd>=-1') + (':m-out' if not 1 <= m <= 12 else ''))
             if f:
